@@ -327,6 +327,7 @@ func init() {
 			for i := 0; i < 12; i++ {
 				cs = append(cs, Case{Kind: "multi", Seed: h.Mix(seed, 0xC14C, uint64(i))})
 			}
+			cs = append(cs, Case{Kind: "forkswitch"})
 			return cs
 		},
 		Run: runC14,
@@ -420,6 +421,51 @@ func runC14(c Case, tier string) (res CaseResult) {
 			}
 			c14Check(&res, h.Istanbul, h.Pick(h.NewRNG(uint64(l)), c14Kinds), common.BytesToAddress([]byte{byte(100 + l%3)}), canon[:min(l, len(canon))], 1, 100000, false)
 			n += 4
+		}
+	case "forkswitch":
+		// one EVM object moved across the Berlin block with SetBlockContext: the precompiles exist exactly under Berlin rules
+		for _, pc := range []common.Address{addrCtxRead, addrOpSender, addrCtxWrite} {
+			var payload []byte
+			switch pc {
+			case addrCtxRead:
+				payload = append(h.ContractAddr(3).Bytes(), []byte("k")...)
+			case addrOpSender:
+				payload = bytes.Repeat([]byte{0x31}, 32)
+			default:
+				payload = abibytes.Encode([]byte("k"), []byte("v"))
+			}
+			codes := [][]byte{c14Last(h.CALL, pc, 100000, h.Istanbul)}
+			fs := h.NewForkSession(h.BaseWorld(codes), h.EnvSpec{Fork: h.Istanbul, BerlinAt: 200}, h.ForkOpts{Debug: true})
+			for step, blk := range []uint64{100, 300, 100, 200, 199} {
+				if step > 0 {
+					fs.SetBlockNumber(blk)
+				}
+				before := len(fs.L.Events)
+				ir := fs.Invoke(h.TxSpec{Entry: h.ECall, From: h.Sender, To: h.ContractAddr(0), Input: payload, Gas: 3_000_000})
+				n++
+				cb := 0
+				for i := before; i < len(fs.L.Events); i++ {
+					switch fs.L.Events[i].K {
+					case h.KCtxGet, h.KCtxSet, h.KJITSender:
+						cb++
+					}
+				}
+				berlin := blk >= 200
+				desc := fmt.Sprintf("one EVM moved by SetBlockContext to block %d (Berlin at 200), CALL to 0x%02x", blk, pc[19])
+				res.Count("calls", 1)
+				res.Count("fork_switch_calls", 1)
+				res.Shape("forkswitch", pc, blk)
+				if ir.Panic != "" {
+					res.Fail(Key("panic", "forkswitch"), "panic: "+firstLine(ir.Panic), desc, clip(ir.PanicStk, 1200))
+					continue
+				}
+				if berlin && cb != 1 {
+					res.Fail(Key("precompile-missing-after-fork-switch", fmt.Sprintf("0x%02x", pc[19])), fmt.Sprintf("%d host callbacks under Berlin rules (expected 1): the precompile table did not follow the block context", cb), desc)
+				}
+				if !berlin && cb != 0 {
+					res.Fail(Key("callback-before-berlin", fmt.Sprintf("0x%02x", pc[19])), "a host callback was invoked under pre-Berlin rules after the EVM had been moved back", desc)
+				}
+			}
 		}
 	case "multi":
 		// several different contracts write through 0x66 within ONE EVM instance (also across two transactions):
